@@ -190,7 +190,7 @@ def main(ctx):
       function="AbstractIntegratorRep::stepTo (report time inside an earlier-localised window, F7)", timeout=600)
     J(cbmc_unit, "reinitialize.contract", [unit], "h_reinitialize", enforce="IntegratorRep_reinitialize", replace=["methodReinitialize"],
       cbmc_args=CHK, require_props=[r"postcondition"], function="IntegratorRep::reinitialize", timeout=300)
-    J(cbmc_unit, "stepby.contract", [unit], "h_stepBy", enforce="Integrator_stepBy", replace=["rep_stepTo"],
+    J(cbmc_unit, "stepby.contract", [unit], "h_stepBy", enforce="Integrator_stepBy", replace=["rep_stepTo"], solver="cvc5",
       cbmc_args=CHK, require_props=[r"postcondition"], function="Integrator::stepBy", timeout=300)
     J(cbmc_unit, "takeonestep.t1", [t1], "h_t1", enforce="takeOneStep_t1", cbmc_args=CHK, require_props=[r"postcondition"],
       function="AbstractIntegratorRep::takeOneStep (t1 selection block)", timeout=600)
